@@ -11,6 +11,10 @@ import MidnightZK.Proofs.C01.Bridge
 import MidnightZK.Model.C01.GraphDump
 import MidnightZK.Proofs.C02.Degree
 import MidnightZK.Proofs.C02.Domain
+import MidnightZK.Proofs.C01.IdDegree
+import MidnightZK.Model.C01.Skeleton
+import MidnightZK.Model.C01.Rotation
+import MidnightZK.Gen.C01Transcript
 /-!
 # C01 — honest proofs verify for every circuit shape and proving configuration
 
@@ -910,6 +914,431 @@ example : ∀ i, i < 2 → (Asm.trashIdPoly (-1 : ℚ) 2 5 [1, 0] [[0, 3]] (Args
       simp only [List.mem_singleton] at he
       subst he
       interval_cases i <;> simp)
+
+/-! ### closing the assembly: from ROWS (not polynomials) to the verifier's check -/
+
+section Closed
+open Polynomial Finset
+variable {F : Type} [Field F] {n : ℕ} {ω : F}
+
+/-- **Gate class over ANY field: the gate polynomials vanish on the whole domain iff every gate
+expression is zero on every row** (`Lift.gatePoly`: the expression over the rotated column
+polynomials, i.e. the polynomial whose value at `x` `evaluate_identities` computes from the
+evaluations; `Expr.eval (Lift.rowEnv n t i)`: the value `GraphEvaluator::evaluate` produces on row
+`i` by `compile_correct`, queries reading the cell `(i + rot) mod n`). `C02` has this over `ZMod p`
+on a dumped table; here no concrete field is needed, which removes the first open hypothesis of the
+assembly. -/
+theorem gate_polys_vanish_iff_rows (hω : IsPrimitiveRoot ω n) (hn : 0 < n) (t : Lift.Tbl F)
+    (gates : List (Graph.Expr F)) :
+    (∀ p ∈ gates.map (Lift.gatePoly ω n t), ∀ i, i < n → p.eval (ω ^ i) = 0) ↔
+      ∀ g ∈ gates, ∀ i, i < n → g.eval (Lift.rowEnv n t i) = 0 :=
+  Lift.gatePolys_vanish_iff_rows hω hn t gates
+
+/-- **Selector-gated gates meet the hypothesis "zero on every row"** of `honest_verifies_rows`: a gate
+`q · G` whose selector `q` is a fixed column queried at the current row (what `replace_selectors`
+produces for `Constraints::with_selector`) is zero on EVERY row as soon as the witness satisfies it
+on the usable rows `i < u` and the selector column is zero on the unusable rows — which key generation
+guarantees (`Assembly::assign_fixed` refuses those rows) and the harness counts on every real table —
+with NO assumption on the advice values of the blinding rows. -/
+theorem selector_gates_zero_on_every_row (t : Lift.Tbl F) (c : ℕ) (G : Graph.Expr F) (u : ℕ)
+    (hq : ∀ i, u ≤ i → i < n → (t.fixed.getD c []).getD i 0 = 0)
+    (hsat : ∀ i, i < u → i < n → (Graph.Expr.prod (.fixed c 0) G).eval (Lift.rowEnv n t i) = 0) :
+    ∀ i, i < n → (Graph.Expr.prod (.fixed c 0) G).eval (Lift.rowEnv n t i) = 0 :=
+  Lift.selector_gate_all_rows t c G u hq hsat
+
+/-- Non-vacuity: selector `[1, 0]`, advice `[0, 7]`, one usable row (`u = 1`, `n = 2`). -/
+example : ∀ i, i < 2 → (Graph.Expr.prod (.fixed 0 0) (.advice 0 0) : Graph.Expr ℚ).eval
+    (Lift.rowEnv 2 ⟨[[1, 0]], [[0, 7]], [], []⟩ i) = 0 :=
+  selector_gates_zero_on_every_row ⟨[[1, 0]], [[0, 7]], [], []⟩ 0 (.advice 0 0) 1
+    (by intro i h1 h2; interval_cases i; rfl)
+    (by intro i h1 _; interval_cases i; simp [Graph.Expr.eval, Lift.rowEnv, Rows.rowEnv, Rows.rowAt])
+
+/-- **What the prover's graph evaluator computes on row `i` is the gate polynomial at `ω^i`**
+(`compile_correct` chained with the lift): for every gate expression, every well-formed graph it is
+compiled into (the graph holding the gates compiled before), every operand order — running
+`GraphEvaluator::evaluate` in the environment of row `i` of the table and reading the returned value
+source gives `(gatePoly e)(ω^i)`, the value on that row of the polynomial whose evaluation at `x` the
+verifier recomputes in `evaluate_identities`. -/
+theorem compiled_graph_value_is_gate_poly_node [DecidableEq F] (hω : IsPrimitiveRoot ω n) (hn : 0 < n)
+    (t : Lift.Tbl F) (i : ℕ) (le : Graph.VS → Graph.VS → Bool) (e : Graph.Expr F) (g : Graph.G F)
+    (hg : Graph.WF g) :
+    Graph.VS.get (Graph.addExpr le e g).1 (Lift.rowEnv n t i)
+        ((Graph.addExpr le e g).1.run (Lift.rowEnv n t i)) (Graph.addExpr le e g).2
+      = (Lift.gatePoly ω n t e).eval (ω ^ i) := by
+  rw [compile_correct le (Lift.rowEnv n t i) e g hg, Lift.gatePoly_node hω hn t i e]
+
+/-- Non-vacuity of the hypothesis `hg`: the fresh graph `GraphEvaluator::default()` is well-formed
+(`WF_init`), over every field; the theorem applies to the gate `q·a` compiled into it. -/
+example [DecidableEq F] (hω : IsPrimitiveRoot ω n) (hn : 0 < n) (t : Lift.Tbl F) (i : ℕ) :
+    let e : Graph.Expr F := .prod (.fixed 0 0) (.advice 0 0)
+    let r := Graph.addExpr Graph.vsLe e (Graph.G.init : Graph.G F)
+    Graph.VS.get r.1 (Lift.rowEnv n t i) (r.1.run (Lift.rowEnv n t i)) r.2 = (Lift.gatePoly ω n t e).eval (ω ^ i) :=
+  compiled_graph_value_is_gate_poly_node hω hn t i Graph.vsLe _ (Graph.G.init : Graph.G F) Graph.WF_init
+
+/-- **What the driver checks on the real tables is the hypothesis of the theorem**: `Rows.gateViolations`
+(the `gaterows` lines: the model's answer on the real table of every proof must be `none`, and on
+tables with one altered cell the same (gate, row) pairs as an independent Rust evaluation) reports
+nothing iff every gate expression is zero on every row — the `hgsat` of `honest_verifies_rows`. -/
+theorem gate_violations_empty_iff_rows {R : Type} [Lean.Grind.CommRing R] [DecidableEq R] (n : ℕ)
+    (t : Rows.Tbl R) (gates : List (Graph.Expr R)) :
+    Rows.gateViolations n t gates = [] ↔ ∀ g ∈ gates, ∀ i, i < n → g.eval (Rows.rowEnv n t i) = 0 :=
+  Lift.gateViolations_nil_iff n t gates
+
+/-- **`natDegree` bounds of the identity POLYNOMIALS of every class**, in units of `n − 1` (a column
+polynomial has degree `≤ n − 1`): a gate polynomial at most `Expression::degree()`; the permutation
+identities at most `chunk_len + 2` (= `degree()`, `chunk_len = degree() − 2`) for every layout; the
+five identities of a lookup at most `max(4, 2 + deg a + deg s)` (`lookup.rs: required_degree`) where
+`a`, `s` are the compressed input / table expression polynomials; the trash identity at most
+`max(deg constraints, deg q + 1)` (`trash.rs: required_degree`). With
+`numerator_fits_quotient_pieces` (the same numbers are `≤ degree()`) this discharges `hdeg` of
+`honest_verifies_algebraic` for every class. -/
+theorem identity_polys_degree_bounds (hω : IsPrimitiveRoot ω n) (hn : 2 ≤ n) :
+    (∀ (t : Lift.Tbl F) (e : Graph.Expr F), (Lift.gatePoly ω n t e).natDegree ≤ Lift.exprDeg e * (n - 1)) ∧
+    (∀ (L bf : ℕ) (β γ δ : F) (cols : List (List F × List F)) (zs : List (List F)), 1 ≤ L →
+      ∀ p ∈ C02.Dom.permIdPolys ω L n bf β γ δ cols zs, p.natDegree ≤ (L + 2) * (n - 1)) ∧
+    (∀ (bf da ds : ℕ) (β γ : F) (a s : F[X]) (A' S' z : List F),
+      a.natDegree ≤ da * (n - 1) → s.natDegree ≤ ds * (n - 1) →
+      ∀ p ∈ Lift.lookupIdPolysE ω n bf β γ a s A' S' z, p.natDegree ≤ max 4 (2 + da + ds) * (n - 1)) ∧
+    (∀ (c : F) (q : F[X]) (exprs : List F[X]) (trash : List F) (dq de : ℕ),
+      q.natDegree ≤ dq * (n - 1) → (∀ e ∈ exprs, e.natDegree ≤ de * (n - 1)) →
+      (Lift.trashIdPolyE ω n c q exprs trash).natDegree ≤ max de (dq + 1) * (n - 1)) :=
+  ⟨fun t e => Lift.natDegree_gatePoly_le hω t e,
+   fun L bf β γ δ cols zs hL => Lift.natDegree_permIdPolys_le hω hn L bf hL β γ δ cols zs,
+   fun bf da ds β γ a s A' S' z ha hs => Lift.natDegree_lookupIdPolysE_le hω bf da ds β γ a s ha hs A' S' z,
+   fun c q exprs trash dq de hq he => Lift.natDegree_trashIdPolyE_le hω c q exprs trash dq de hq he⟩
+
+/-- The compressed expression polynomial of a lookup / trash argument (`compress_expressions` over the
+gate-expression polynomials) has on row `i` the value the prover computes row-wise, and its degree is
+the maximum of the expression degrees — the `a`, `s`, `exprs` of `honest_verifies_rows` are of this
+form. -/
+theorem compressed_expression_poly_spec (hω : IsPrimitiveRoot ω n) (θ : F) (t : Lift.Tbl F)
+    (es : List (Graph.Expr F)) (d : ℕ) (hd : ∀ e ∈ es, Lift.exprDeg e ≤ d) :
+    (∀ i, i < n → (Lift.compressPoly θ (es.map (Lift.gatePoly ω n t))).eval (ω ^ i) =
+      Args.compressRow θ ((es.map (Lift.gatePoly ω n t)).map (Lift.nodeVals ω n)) i) ∧
+    (Lift.compressPoly θ (es.map (Lift.gatePoly ω n t))).natDegree ≤ d * (n - 1) := by
+  refine ⟨fun i hi => Lift.compressPoly_node θ _ i hi, Lift.natDegree_compressPoly_le θ _ d (n - 1) ?_⟩
+  intro p hp
+  obtain ⟨e, he, rfl⟩ := List.mem_map.1 hp
+  exact le_trans (Lift.natDegree_gatePoly_le hω t e) (Nat.mul_le_mul_right _ (hd e he))
+
+/-- **The degree hypotheses of `honest_verifies_rows` hold with `D = ConstraintSystem::degree()`**
+(`C02.Ids.csDegree`, the mirror compared with `cs.degree()` of the running code on every family
+member), for every constraint system in the dumped format and over every field: `D ≥ 3`; every gate
+polynomial has `exprDeg ≤ D`; for every lookup, with `da`, `ds` the folds `max(1, deg input_i)`,
+`max(1, deg table_i)` of `lookup.rs: required_degree`, every input / table expression has degree
+`≤ da` / `≤ ds` and `max 4 (2 + da + ds) ≤ D`; for every trash argument whose selector is a column
+(`deg q ≤ 1`), with `de` the maximal constraint degree, `max de (1 + 1) ≤ D`. -/
+theorem degree_hypotheses_from_constraint_system (cs : C02.Ids.VCS) :
+    3 ≤ C02.Ids.csDegree cs ∧
+    (∀ g ∈ cs.gates.flatten, Lift.exprDeg (Lift.ofC02F (F := F) g) ≤ C02.Ids.csDegree cs) ∧
+    (∀ l ∈ cs.lookups,
+      let da := l.1.foldl (fun d e => max d (C02.Ids.exprDegree e)) 1
+      let ds := l.2.foldl (fun d e => max d (C02.Ids.exprDegree e)) 1
+      max 4 (2 + da + ds) ≤ C02.Ids.csDegree cs ∧
+      (∀ e ∈ l.1, Lift.exprDeg (Lift.ofC02F (F := F) e) ≤ da) ∧
+      (∀ e ∈ l.2, Lift.exprDeg (Lift.ofC02F (F := F) e) ≤ ds)) ∧
+    (∀ t ∈ cs.trash, C02.Ids.exprDegree t.1 ≤ 1 →
+      let de := t.2.foldl (fun d e => max d (C02.Ids.exprDegree e)) 0
+      max de (1 + 1) ≤ C02.Ids.csDegree cs ∧ Lift.exprDeg (Lift.ofC02F (F := F) t.1) ≤ 1 ∧
+      (∀ e ∈ t.2, Lift.exprDeg (Lift.ofC02F (F := F) e) ≤ de)) := by
+  refine ⟨C02.Ids.csDegree_ge_3 cs, ?_, ?_, ?_⟩
+  · intro g hg
+    rw [Lift.exprDeg_ofC02F]
+    exact C02.Ids.csDegree_ge_gate cs g hg
+  · intro l hl
+    refine ⟨C02.Ids.csDegree_ge_lookup cs l hl, ?_, ?_⟩
+    · intro e he
+      rw [Lift.exprDeg_ofC02F]
+      exact Lift.mem_le_foldl_maxf C02.Ids.exprDegree l.1 1 e he
+    · intro e he
+      rw [Lift.exprDeg_ofC02F]
+      exact Lift.mem_le_foldl_maxf C02.Ids.exprDegree l.2 1 e he
+  · intro t ht hq
+    refine ⟨?_, by rw [Lift.exprDeg_ofC02F]; exact hq, ?_⟩
+    · have h := C02.Ids.csDegree_ge_trash cs t ht
+      unfold C02.Ids.trashRequiredDegree at h
+      omega
+    · intro e he
+      rw [Lift.exprDeg_ofC02F]
+      exact Lift.mem_le_foldl_maxf C02.Ids.exprDegree t.2 0 e he
+
+/-- **Honest proofs pass the verifier's algebraic check — closed form, no polynomial-level
+hypothesis.** For every field with a primitive `n`-th root of unity, every `degree() = D ≥ 3`, every
+number of blinding factors with `bf + 2 ≤ n`, and a whole constraint system given by
+
+* gate expressions of degree `≤ D` that evaluate to zero on EVERY row of the assignment table `t`
+  (blinding rows included: a selector factor gives this, `selector_gate_blinding_rows`),
+* permutation columns whose (value, σ-label) pairs are a permutation of the (value, identity-label)
+  pairs on the usable rows (the copy constraints hold; `sigma_invariant_pairs_perm`), with the
+  running products `permProducts` the model prover computes (`chunk_len = D − 2`, any blinding),
+* any number of lookups, each with compressed input / table expression polynomials `a`, `s` of
+  degrees `da`, `ds` (`max 4 (2 + da + ds) ≤ D`) for whose value vectors `permute_expression_pair`
+  returned `Ok((A', S'))`, with the product vector `lookupProduct` the model prover computes,
+* any number of trash arguments (selector polynomial `q`, constraint polynomials `exprs`,
+  `max de (dq + 1) ≤ D`) with `q·e = 0` on every row, with the column `trashValues`,
+
+the list of identity polynomials in the order of `verifierIds` (gates, permutation, lookups, trash)
+is divisible by `X^n − 1` after the `y`-combination, the `D − 1` blinded quotient pieces recombine to
+`h(x)`, and `vanishing/verifier.rs: verify`'s check `hCheck` ACCEPTS — for every `y`, every `x` off
+the domain, every blinding `ts`. What remains outside: the exceptional challenges (`hdenP`, the
+`≠ 0` in `hlk`: vanishing denominators; no probability bound), commitments / openings abstract
+(C14), and that `t`, `cols`, the lookup / trash polynomials are what the real prover holds (tied by
+the correspondence: argument vectors, identity log, compiled graphs). -/
+theorem honest_verifies_rows [DecidableEq F] (hω : IsPrimitiveRoot ω n) (D bf : ℕ) (hD : 3 ≤ D)
+    (hn : bf + 2 ≤ n)
+    (t : Lift.Tbl F) (gates : List (Graph.Expr F))
+    (hgdeg : ∀ g ∈ gates, Lift.exprDeg g ≤ D)
+    (hgsat : ∀ g ∈ gates, ∀ i, i < n → g.eval (Lift.rowEnv n t i) = 0)
+    (β γ δ : F) (rndP : ℕ → ℕ → F) (cols : List (List F × List F))
+    (hlen : ∀ c ∈ cols, c.1.length = n ∧ c.2.length = n)
+    (hdenP : ∀ c ∈ cols, ∀ i, i < n - (bf + 1) → β * c.2.getD i 0 + γ + c.1.getD i 0 ≠ 0)
+    (hperm : (sigmaPairs (n - (bf + 1)) cols).Perm (idPairs δ ω (n - (bf + 1)) cols))
+    (le : F → F → Bool) (hle : LinOrd le)
+    (order : List (F × Nat) → List (F × Nat)) (horder : ∀ m, (order m).Perm m)
+    (lookups : List (Lift.LookupArg F))
+    (hlk : ∀ L ∈ lookups, max 4 (2 + L.da + L.ds) ≤ D ∧ L.a.natDegree ≤ L.da * (n - 1) ∧
+      L.s.natDegree ≤ L.ds * (n - 1) ∧
+      Args.permuteExpressionPair le 0 order (n - (bf + 1)) (Lift.nodeVals ω n L.a) (Lift.nodeVals ω n L.s)
+        L.blindA L.blindS = .ok L.A' L.S' ∧
+      ∀ i, i < n - (bf + 1) → (β + L.A'.getD i 0) * (γ + L.S'.getD i 0) ≠ 0)
+    (c : F) (trashes : List (Lift.TrashArg F))
+    (htr : ∀ T ∈ trashes, max T.de (T.dq + 1) ≤ D ∧ T.q.natDegree ≤ T.dq * (n - 1) ∧
+      (∀ e ∈ T.exprs, e.natDegree ≤ T.de * (n - 1)) ∧
+      ∀ i, i < n → ∀ e ∈ T.exprs, T.q.eval (ω ^ i) * e.eval (ω ^ i) = 0)
+    (y x : F) (hx : x ^ n ≠ 1) (ts : List F) :
+    let ids : List F[X] :=
+      gates.map (Lift.gatePoly ω n t) ++
+      C02.Dom.permIdPolys ω (D - 2) n bf β γ δ cols
+        (Args.permProducts (fun x => x⁻¹) (D - 2) n bf β γ δ ω rndP cols) ++
+      lookups.flatMap (fun L => Lift.lookupIdPolysE ω n bf β γ L.a L.s L.A' L.S'
+        (Args.lookupProduct (fun x => x⁻¹) n bf β γ (Lift.nodeVals ω n L.a) (Lift.nodeVals ω n L.s)
+          L.A' L.S' L.rnd)) ++
+      trashes.map (fun T => Lift.trashIdPolyE ω n c T.q T.exprs
+        (Args.trashValues n c (T.exprs.map (Lift.nodeVals ω n))))
+    let h := Dom.ycomb y ids /ₘ (X ^ n - 1)
+    let pieces := blind ts (chunksExact (n - 1) ((n - 1) * (D - 1)) (Asm.coeffList h ((n - 1) * (D - 1))))
+    h * (X ^ n - 1) = Dom.ycomb y ids ∧
+    Van.hCheck (fun a => a⁻¹) (ids.map (eval x)) y x n (pieces.map (fun L => evalPoly L x)) = true := by
+  intro ids h pieces
+  have hn0 : 0 < n := by omega
+  have hvanish : ∀ p ∈ ids, ∀ i, i < n → p.eval (ω ^ i) = 0 := by
+    intro p hp
+    simp only [ids, List.mem_append, List.mem_flatMap] at hp
+    rcases hp with ((hp | hp) | ⟨L, hL, hp⟩) | hp
+    · exact (gate_polys_vanish_iff_rows hω hn0 t gates).2 hgsat p hp
+    · exact perm_identities_vanish_on_domain hω (D - 2) bf β γ δ rndP cols (by omega) (by omega) hlen hdenP
+        hperm p hp
+    · obtain ⟨_, _, _, hok, hden⟩ := hlk L hL
+      exact Lift.lookupIdPolysE_vanish hω hn0 bf β γ L.a L.s L.A' L.S' _
+        (lookup_product_complete le hle order horder n bf β γ _ _ L.blindA L.blindS L.rnd L.A' L.S' hn
+          (Lift.nodeVals_length _) (Lift.nodeVals_length _) hok hden) p hp
+    · obtain ⟨T, hT, rfl⟩ := List.mem_map.1 hp
+      obtain ⟨_, _, _, hsat⟩ := htr T hT
+      intro i hi
+      rw [Lift.trashIdPolyE_node hω c T.q T.exprs _ i hi]
+      refine trash_complete n c _ _ ?_ ?_ i hi
+      · intro e he
+        obtain ⟨e', _, rfl⟩ := List.mem_map.1 he
+        exact Lift.nodeVals_length _
+      · intro j hj e he
+        obtain ⟨e', he', rfl⟩ := List.mem_map.1 he
+        rw [Lift.nodeVals_getD _ j hj, Lift.nodeVals_getD _ j hj]
+        exact hsat j hj e' he'
+  have hdeg : ∀ p ∈ ids, p.natDegree < n + (n - 1) * (D - 1) := by
+    intro p hp
+    apply Lift.deg_lt_pieces (by omega) (by omega)
+    simp only [ids, List.mem_append, List.mem_flatMap] at hp
+    rcases hp with ((hp | hp) | ⟨L, hL, hp⟩) | hp
+    · obtain ⟨g, hg, rfl⟩ := List.mem_map.1 hp
+      exact le_trans (Lift.natDegree_gatePoly_le hω t g) (Nat.mul_le_mul_right _ (hgdeg g hg))
+    · have := Lift.natDegree_permIdPolys_le hω (by omega) (D - 2) bf (by omega) β γ δ cols _ p hp
+      rwa [show D - 2 + 2 = D by omega] at this
+    · obtain ⟨hd, ha, hs, _, _⟩ := hlk L hL
+      exact le_trans (Lift.natDegree_lookupIdPolysE_le hω bf L.da L.ds β γ L.a L.s ha hs _ _ _ p hp)
+        (Nat.mul_le_mul_right _ hd)
+    · obtain ⟨T, hT, rfl⟩ := List.mem_map.1 hp
+      obtain ⟨hd, hq, he, _⟩ := htr T hT
+      exact le_trans (Lift.natDegree_trashIdPolyE_le hω c T.q T.exprs _ T.dq T.de hq he)
+        (Nat.mul_le_mul_right _ hd)
+  have := honest_verifies_algebraic hω (by omega) (D - 1) (by omega) ids hvanish hdeg y x hx ts
+  exact ⟨this.1, this.2.1⟩
+
+end Closed
+
+/-- Non-vacuity of `gate_polys_vanish_iff_rows` / `honest_verifies_rows` over `ℚ`, `n = 2`, `ω = −1`,
+`degree() = 3`, no blinding factor: the gate `q·a` with selector column `[1, 0]` and advice column
+`[0, 7]` (non-zero on the row where the selector is off) is zero on both rows; all hypotheses of
+`honest_verifies_rows` hold (no permutation column, lookup or trash argument), and the theorem
+applies with `y = 3`, `x = 2`, `ts = [5]`. -/
+example : ∃ (t : Lift.Tbl ℚ) (gates : List (Graph.Expr ℚ)), gates ≠ [] ∧
+    (∀ g ∈ gates, Lift.exprDeg g ≤ 3) ∧ (∀ g ∈ gates, ∀ i, i < 2 → g.eval (Lift.rowEnv 2 t i) = 0) :=
+  ⟨⟨[[1, 0]], [[0, 7]], [], []⟩, [.prod (.fixed 0 0) (.advice 0 0)], by simp, by simp [Lift.exprDeg], by
+    intro g hg i hi
+    simp only [List.mem_singleton] at hg
+    subst hg
+    interval_cases i <;> simp [Graph.Expr.eval, Lift.rowEnv, Rows.rowEnv, Rows.rowAt]⟩
+
+private theorem ratLinOrd : LinOrd (fun a b : ℚ => decide (a ≤ b)) where
+  total a b := by simp only [decide_eq_true_eq]; exact le_total a b
+  trans a b c := by simp only [decide_eq_true_eq]; exact le_trans
+  antisymm a b := by simp only [decide_eq_true_eq]; exact le_antisymm
+
+example : ∃ (idEvals pieceEvals : List ℚ), Van.hCheck (fun a => a⁻¹) idEvals 3 2 2 pieceEvals = true :=
+  ⟨_, _, (honest_verifies_rows (F := ℚ) (n := 2) (ω := -1) (IsPrimitiveRoot.neg_one 0 (by decide)) 3 0 (by decide)
+    (by decide) ⟨[[1, 0]], [[0, 7]], [], []⟩ [.prod (.fixed 0 0) (.advice 0 0)] (by simp [Lift.exprDeg])
+    (by
+      intro g hg i hi
+      simp only [List.mem_singleton] at hg
+      subst hg
+      interval_cases i <;> simp [Graph.Expr.eval, Lift.rowEnv, Rows.rowEnv, Rows.rowAt])
+    1 1 2 (fun _ _ => 0) [] (by simp) (by simp) (by simp [sigmaPairs, idPairs])
+    _ ratLinOrd id (fun m => List.Perm.refl m) [] (by simp) 5 [] (by simp) 3 2 (by norm_num) [5]).2⟩
+
+/-! ### `get_rotation_idx`: rotations as index arithmetic on the (extended) domain -/
+
+section Rotation
+open Rot
+
+/-- **`get_rotation_idx` is addition of `rot·rot_scale` modulo `isize`** (`evaluation.rs`), for every
+row index, every rotation (negative ones and those that wrap around included), every scale and every
+size `isize > 0`: the result is a valid index `< isize`, it is congruent to `idx + rot·rot_scale`
+modulo `isize`, a rotation by `0` (or by a multiple `k·isize` of the domain at scale 1) of a valid
+index is the identity, and rotating twice is rotating by the sum (so `rot` then `−rot` returns to the
+row: wrap-around loses nothing). -/
+theorem rotation_idx_spec (idx : Nat) (rot rot' s isize : Int) (h : 0 < isize) :
+    ((getRotationIdx idx rot s isize : Nat) : Int) < isize ∧
+    ((getRotationIdx idx rot s isize : Nat) : Int) % isize = ((idx : Int) + rot * s) % isize ∧
+    ((idx : Int) < isize → getRotationIdx idx 0 s isize = idx) ∧
+    getRotationIdx (getRotationIdx idx rot s isize) rot' s isize = getRotationIdx idx (rot + rot') s isize := by
+  have hnn : 0 ≤ ((idx : Int) + rot * s) % isize := Int.emod_nonneg _ (by omega)
+  have hlt : ((idx : Int) + rot * s) % isize < isize := Int.emod_lt_of_pos _ h
+  have hcast : ((getRotationIdx idx rot s isize : Nat) : Int) = ((idx : Int) + rot * s) % isize := by
+    unfold getRotationIdx; exact Int.toNat_of_nonneg hnn
+  refine ⟨by rw [hcast]; exact hlt, by rw [hcast, Int.emod_emod_of_dvd _ (dvd_refl _)], ?_, ?_⟩
+  · intro hi
+    unfold getRotationIdx
+    rw [Int.zero_mul, Int.add_zero, Int.emod_eq_of_lt (by omega) hi, Int.toNat_natCast]
+  · unfold getRotationIdx at hcast ⊢
+    rw [hcast, Int.emod_add_emod, show (idx : Int) + rot * s + rot' * s = (idx : Int) + (rot + rot') * s by ring]
+
+/-- **On the field side**: for a primitive `N`-th root of unity `ω_ext` of the extended domain
+(`N = isize`) the point at the rotated index is the point of the row times `ω^rot` with
+`ω = ω_ext^rot_scale` the generator of the un-extended domain: the value read is `p(ω^rot·X)` at the
+row's point — the `rotPoly` of the identity polynomials. -/
+theorem rotation_idx_point {F : Type} [Field F] {N : ℕ} {w : F} (hw : IsPrimitiveRoot w N) (hN : 0 < N)
+    (idx : Nat) (rot : Int) (s : ℕ) :
+    w ^ getRotationIdx idx rot s N = w ^ idx * (w ^ s) ^ rot := by
+  have hw0 := Dom.omega_ne_zero hw hN
+  have : getRotationIdx idx rot s N = Asm.rowOf N ((idx : ℤ) + rot * s) := rfl
+  rw [this, ← Asm.zpow_eq_rowOf hw hN, zpow_add₀ hw0, zpow_natCast, mul_comm rot, zpow_mul, zpow_natCast]
+
+/-- **The row convention of the gate theorems is `get_rotation_idx` at scale 1**: the cell a query at
+rotation `rot` reads from row `i` in `Rows.rowEnv` (`gate_polys_vanish_iff_rows`,
+`honest_verifies_rows`) is the index `get_rotation_idx(i, rot, 1, n)` the prover's evaluator uses on
+the un-extended domain; on an extended domain of `n·s` points the index of the rotated row among
+the multiples of `s` is `s` times that row. -/
+theorem rotation_idx_is_row_convention (n i : Nat) (hn : 0 < n) (rot : Int) :
+    getRotationIdx i rot 1 n = Rows.rowAt n i rot ∧
+    ∀ s : Nat, 0 < s → getRotationIdx (s * i) rot s (n * s : Nat) = s * Rows.rowAt n i rot := by
+  refine ⟨by unfold getRotationIdx Rows.rowAt; rw [Int.mul_one], ?_⟩
+  intro s hs
+  unfold getRotationIdx Rows.rowAt
+  have h1 : ((s * i : Nat) : Int) + rot * s = s * ((i : Int) + rot) := by push_cast; ring
+  have hnn : 0 ≤ ((i : Int) + rot) % (n : Int) := Int.emod_nonneg _ (by exact_mod_cast hn.ne')
+  rw [h1, Nat.cast_mul, Int.mul_comm (n : Int) s, Int.mul_emod_mul_of_pos _ _ (by exact_mod_cast hs),
+    Int.toNat_mul (by exact_mod_cast Nat.zero_le s) hnn, Int.toNat_natCast]
+
+/-- Non-vacuity / reading: `n = 8`, scale 4: row 1 at rotation −3 reads row 6 = index 24 of 32. -/
+example : getRotationIdx 1 (-3) 1 8 = 6 ∧ getRotationIdx (4 * 1) (-3) 4 (8 * 4 : Nat) = 4 * 6 := by decide
+
+end Rotation
+
+/-- Non-vacuity / readings: extended domain of 32 points at scale 4 (`k = 3`, `extended_k = 5`):
+row 1 at rotation −1 wraps to 29, row 30 at rotation +1 wraps to 2. -/
+example : Rot.getRotationIdx 1 (-1) 4 32 = 29 ∧ Rot.getRotationIdx 30 1 4 32 = 2 ∧
+    Rot.getRotationIdx 0 (-3) 1 8 = 5 ∧ Rot.getRotationIdx 5 16 1 8 = 5 := by decide
+
+/-! ### the transcript call sites of the source, in textual order, are the schedule's segments -/
+
+section Skeleton
+open Skel
+
+/-- **The schedules are the 22 segments in the order of `skeleton`**, for every shape and every
+configuration — prover and verifier share the order of the segments (their contents agree by
+`schedule_agree`). -/
+theorem schedule_is_skeleton (sh : Shape) (cfg : Cfg) :
+    proverSchedule sh cfg = skeleton.flatMap (proverSeg sh cfg) ∧
+    verifierSchedule sh cfg = skeleton.flatMap (verifierSeg sh cfg) := by
+  constructor
+  · unfold proverSchedule skeleton
+    simp only [List.flatMap_cons, List.flatMap_nil, List.append_nil]
+    simp only [proverSeg]
+    simp only [List.append_assoc]
+    rfl
+  · unfold verifierSchedule skeleton
+    simp only [List.flatMap_cons, List.flatMap_nil, List.append_nil]
+    simp only [verifierSeg]
+    simp only [List.append_assoc]
+    rfl
+
+/-- **The transcript operations of `prover.rs` and `verifier.rs`, in the textual order in which the
+CURRENT sources contain them (regenerated on every run by `translators/c01_transcript.py`), are the
+call sites of the model's segments in the order of `skeleton`**: `compute_trace` followed by
+`finalise_proof` (resp. `parse_trace` followed by `verify_algebraic_constraints`) is `proverSites`
+(resp. `verifierSites`) token by token, whose segments — runs collapsed — are exactly `skeleton`;
+`create_proof` / `prepare` call the two halves in this order; the helper functions have the pinned
+call sites (`compute_instances`: three `common`; `parse_advices`: `write` then `squeeze`;
+`write_evals_to_transcript`: three `write`). With `schedule_is_skeleton` a reordering of two
+transcript operations in either file breaks this theorem at build time, for shapes the circuit
+family never samples too. -/
+theorem transcript_order_is_schedule_skeleton :
+    fnTokens Gen.C01Transcript.proverFns "compute_trace" ++ fnTokens Gen.C01Transcript.proverFns "finalise_proof"
+      = proverSites.map (·.1) ∧
+    fnTokens Gen.C01Transcript.verifierFns "parse_trace" ++
+        fnTokens Gen.C01Transcript.verifierFns "verify_algebraic_constraints" = verifierSites.map (·.1) ∧
+    dedupAdj (proverSites.map (·.2)) = skeleton ∧ dedupAdj (verifierSites.map (·.2)) = skeleton ∧
+    fnTokens Gen.C01Transcript.proverFns "create_proof" = ["call:compute_trace", "call:finalise_proof"] ∧
+    fnTokens Gen.C01Transcript.verifierFns "prepare" = ["call:parse_trace", "call:verify_algebraic_constraints"] ∧
+    fnTokens Gen.C01Transcript.proverFns "compute_instances" = ["common", "common", "common"] ∧
+    fnTokens Gen.C01Transcript.proverFns "parse_advices" = ["write", "squeeze"] ∧
+    fnTokens Gen.C01Transcript.proverFns "write_evals_to_transcript" = ["write", "write", "write"] ∧
+    Gen.C01Transcript.proverFns.map (·.1) = ["compute_trace", "finalise_proof", "create_proof",
+      "compute_instances", "parse_advices", "write_evals_to_transcript"] ∧
+    Gen.C01Transcript.verifierFns.map (·.1) = ["parse_trace", "verify_algebraic_constraints", "prepare"] := by
+  decide
+
+/-- **The argument files write and read the same elements in the same textual order**
+(`lookup/`, `permutation/`, `trash/`, `vanishing/` × `prover.rs`, `verifier.rs`, regenerated on every
+run): the operations of every function that touches the transcript are the model's table `argOps`;
+what `lookup::commit_permuted` writes is what `read_permuted_commitments` reads (input, then table);
+the five evaluations a lookup writes (the items chained into its loop) are the five the verifier
+reads, in the order `lookupEvalNames` of `lookupEval p l 0..4`; the permutation evaluations
+(`eval`, `next_eval`, then `last_eval` for all sets but the last) and the trash / vanishing elements
+likewise. A swap of two reads or of two items of a write loop in any of these files breaks this
+theorem at build time (the recorded transcripts cannot see it: both are reads of a scalar). -/
+theorem argument_transcript_sites :
+    Gen.C01Transcript.argFns.map (fun e => (e.1, e.2.1, e.2.2.map (·.1))) = argOps ∧
+    argNames Gen.C01Transcript.argFns "lookup/prover.rs" "commit_permuted"
+      = argNames Gen.C01Transcript.argFns "lookup/verifier.rs" "read_permuted_commitments" ∧
+    argNames Gen.C01Transcript.argFns "lookup/prover.rs" "commit_permuted"
+      = ["permuted_input_commitment", "permuted_table_commitment"] ∧
+    argNames Gen.C01Transcript.argFns "lookup/prover.rs" "commit_product"
+      = argNames Gen.C01Transcript.argFns "lookup/verifier.rs" "read_product_commitment" ∧
+    argNames Gen.C01Transcript.argFns "lookup/prover.rs" "evaluate" = lookupEvalNames ∧
+    argNames Gen.C01Transcript.argFns "lookup/verifier.rs" "evaluate" = lookupEvalNames ∧
+    argNames Gen.C01Transcript.argFns "permutation/prover.rs" "evaluate#2"
+      = ["permutation_product_eval", "permutation_product_next_eval", "permutation_product_last_eval"] ∧
+    argNames Gen.C01Transcript.argFns "permutation/verifier.rs" "evaluate#2"
+      = ["permutation_product_eval", "permutation_product_next_eval"] ∧
+    argNames Gen.C01Transcript.argFns "trash/prover.rs" "commit"
+      = argNames Gen.C01Transcript.argFns "trash/verifier.rs" "read_committed" ∧
+    argNames Gen.C01Transcript.argFns "trash/prover.rs" "evaluate"
+      = argNames Gen.C01Transcript.argFns "trash/verifier.rs" "evaluate" ∧
+    argNames Gen.C01Transcript.argFns "vanishing/prover.rs" "evaluate"
+      = argNames Gen.C01Transcript.argFns "vanishing/verifier.rs" "evaluate_after_x" := by
+  decide
+
+end Skeleton
 
 /-! ### the constant shortcuts of `add_expression` on both operand positions (concrete readings) -/
 
